@@ -13,7 +13,12 @@ Ties:
     a detector only.  Classes whose table has a global site are also run on data with tied utilities
     (where hidden nondeterminism changes the outcome).
 """
+import os
 import time
+
+# tiny data: BLAS / OpenMP thread pools only add overhead (and nondeterministic summation order)
+for _v in ("OMP_NUM_THREADS", "OPENBLAS_NUM_THREADS", "MKL_NUM_THREADS"):
+    os.environ.setdefault(_v, "1")
 
 from .. import vlib
 from ..translate import gen, oracles, zoo
